@@ -12,6 +12,57 @@ Local Open Scope string_scope.
 Lemma generated_c12_obligation : c12_obligation stages = true.
 Proof. vm_compute. reflexivity. Qed.
 
+(* The integrality guard must see the FINAL charges: it has to come after EVERY stage that can
+   change a charge or the matched / missing atom lists (apply_force_field AND the --ligand block,
+   which overwrites the ligand atoms' charges with the MOL2 ones).  In table terms: no Compute
+   stage follows the last [raise_if_charge_err]; what follows may only rename, render, log,
+   return or write.  (A guard moved up "to fail early" checks a total that the ligand block
+   then changes: a non-integral ligand slips through and is written.) *)
+Fixpoint after_last (n : string) (ds : list sdesc) : option (list sdesc) :=
+  match ds with
+  | [] => None
+  | d :: r =>
+    match after_last n r with
+    | Some t => Some t
+    | None => if String.eqb (sd_name d) n then Some r else None
+    end
+  end.
+
+Definition guard_is_last_compute (ds : list sdesc) : bool :=
+  match after_last "raise_if_charge_err" ds with
+  | None => false
+  | Some t => forallb (fun d => negb (kind_eqb (sd_kind d) Compute)) t
+  end.
+
+Lemma after_last_spec n ds t :
+  after_last n ds = Some t ->
+  exists pre g, ds = (pre ++ g :: t)%list /\ sd_name g = n /\ positions n t = [].
+Proof.
+  revert t. induction ds as [|d r IH]; intros t H; cbn in H; [discriminate|].
+  destruct (after_last n r) as [t'|] eqn:E.
+  - inversion H; subst t'. destruct (IH t eq_refl) as [pre [g [Hr [Hg Hp]]]].
+    exists (d :: pre), g. subst r. auto.
+  - destruct (String.eqb (sd_name d) n) eqn:En; [|discriminate]. inversion H; subst t.
+    exists [], d. split; [reflexivity|]. split; [now apply String.eqb_eq|].
+    clear - E. unfold positions. generalize 0.
+    induction r as [|e r IH]; intros i; [reflexivity|]. cbn in E |- *.
+    destruct (after_last n r) eqn:E2; [discriminate|].
+    destruct (String.eqb (sd_name e) n); [discriminate|]. apply IH. reflexivity.
+Qed.
+
+(* every stage behind the last guard stage is not a Compute stage *)
+Lemma guard_is_last_compute_spec ds :
+  guard_is_last_compute ds = true ->
+  exists pre g post, ds = (pre ++ g :: post)%list /\ sd_name g = "raise_if_charge_err"
+    /\ forall d, In d post -> sd_kind d <> Compute.
+Proof.
+  unfold guard_is_last_compute. destruct (after_last "raise_if_charge_err" ds) as [t|] eqn:E; [|discriminate].
+  intros H. destruct (after_last_spec _ _ _ E) as [pre [g [Hds [Hg _]]]].
+  exists pre, g, t. split; [exact Hds|]. split; [exact Hg|].
+  intros d Hd. rewrite forallb_forall in H. specialize (H d Hd).
+  intros K. rewrite K in H. discriminate.
+Qed.
+
 (* the charge guard, the "no atom received parameters" guard (raise_if_matched_atoms,
    /repo 7917ee7), the parameter lookup and the structure checks are among the
    stages in front of the writer *)
@@ -22,7 +73,12 @@ Lemma generated_guard_before_writer :
   /\ all_before "is_repairable" "print_pqr" stages = true
   /\ all_before "check_files" "print_pqr" stages = true
   /\ all_before "check_options" "print_pqr" stages = true
-  /\ all_before "get_molecule" "print_pqr" stages = true.
+  /\ all_before "get_molecule" "print_pqr" stages = true
+  /\ guard_is_last_compute stages = true
+  /\ all_before "apply_force_field" "raise_if_charge_err" stages = true
+  /\ all_before "loop_residue_tot_charge" "loop_residue_charge" stages = true
+  /\ all_before "assign_matched_atoms" "loop_residue_charge" stages = true
+  /\ all_before "loop_residue_charge" "raise_if_charge_err" stages = true.
 Proof. vm_compute. repeat split; reflexivity. Qed.
 
 Lemma generated_no_partial_output :
@@ -32,3 +88,19 @@ Lemma generated_no_partial_output :
     /\ ((forall k, k < length stages -> faulty (flt k) = false) ->
        frun stages 0 flt c f = (Finished, Complete c)).
 Proof. intros C. apply no_partial_output, generated_c12_obligation. Qed.
+
+(* the guard-order obligation is satisfiable and needed: a guard in front of the ligand block fails it *)
+Example guard_order_nonvacuous :
+  guard_is_last_compute
+    [mk_sdesc "apply_force_field" "non_trivial" Compute [] [] [] false false;
+     mk_sdesc "loop_residue_tot_charge" "non_trivial" Compute [] [] [] false false;
+     mk_sdesc "raise_if_charge_err" "non_trivial" Compute [] [] [] false false;
+     mk_sdesc "apply_name_scheme" "non_trivial" Rename [] [] [] false false;
+     mk_sdesc "print_pqr" "main_driver" Output [] [] [("main.print_pqr", ["output_pqr"])] true false] = true
+  /\ guard_is_last_compute
+    [mk_sdesc "apply_force_field" "non_trivial" Compute [] [] [] false false;
+     mk_sdesc "raise_if_charge_err" "non_trivial" Compute [] [] [] false false;
+     mk_sdesc "loop_residue_tot_charge" "non_trivial" Compute [] [] [] false false;
+     mk_sdesc "print_pqr" "main_driver" Output [] [] [("main.print_pqr", ["output_pqr"])] true false] = false
+  /\ guard_is_last_compute [mk_sdesc "print_pqr" "main_driver" Output [] [] [] true false] = false.
+Proof. repeat split; reflexivity. Qed.
